@@ -255,34 +255,52 @@ func checkC10(c *Ctx) {
 		}
 	}
 
-	matched, ok := validateProcTrace(c, events, "{}")
-	if !ok {
-		bad := events[matched]
+	// A key's determinism does not depend on other keys (only the polluters matter to the
+	// deviation), so the history is validated in groups of keys, each with every polluter event:
+	// TLC's state holds one memo entry per key of the group.
+	groupOf := map[string]int{}
+	polluter := map[string]bool{}
+	for i, k := range keys {
+		groupOf[k.id] = i / 120
+		groupOf[k.id+"#bin"] = i / 120
+		if k.pollutes {
+			polluter[k.id] = true
+		}
+	}
+	ngroups := (len(keys) + 119) / 120
+	for g := 0; g < ngroups; g++ {
+		var sub []runEvent
+		for _, e := range events {
+			if groupOf[e.Key] == g || polluter[e.Key] {
+				sub = append(sub, e)
+			}
+		}
+		matched, ok := validateProcTrace(c, sub, "{}")
+		if ok {
+			continue
+		}
+		bad := sub[matched]
 		var kk procKey
 		for _, k := range keys {
 			if k.id == strings.TrimSuffix(bad.Key, "#bin") {
 				kk = k
 			}
 		}
-		open := c.OpenDev("proto-pollution")
-		ok2 := false
-		if open {
-			_, ok2 = validateProcTrace(c, events, "{\"proto-pollution\"}")
-		}
-		if ok2 {
-			c.Known("proto-pollution", "a program that assigns through a method name (x = 5; x.floor = 1) overwrites a process-wide prototype table: later runs in the same process that call methods change (witness: "+strconv.Quote(c10Polluters[0])+" then "+strconv.Quote(c10Victims[0])+")")
-		} else {
-			// find the earlier observation of the same key for the replay file
-			var earlier *runEvent
-			for i := 0; i < matched; i++ {
-				if events[i].Key == bad.Key {
-					earlier = &events[i]
-					break
-				}
+		if c.OpenDev("proto-pollution") {
+			if _, ok2 := validateProcTrace(c, sub, "{\"proto-pollution\"}"); ok2 {
+				c.Known("proto-pollution", "a program that assigns through a method name (x = 5; x.floor = 1) overwrites a process-wide prototype table: later runs in the same process that call methods change (witness: "+strconv.Quote(c10Polluters[0])+" then "+strconv.Quote(c10Victims[0])+")")
+				continue
 			}
-			c.Violation("nondeterministic", map[string]any{"program": kk.prog, "selectors": kk.sels, "input": kk.input, "event_index": matched, "event": bad, "first_observation": earlier,
-				"why": "the same (program, selectors, input) produced two different observations (stdout / JSON output / outcome)"})
 		}
+		var earlier *runEvent
+		for i := 0; i < matched; i++ {
+			if sub[i].Key == bad.Key {
+				earlier = &sub[i]
+				break
+			}
+		}
+		c.Violation("nondeterministic", map[string]any{"program": kk.prog, "selectors": kk.sels, "input": kk.input, "event_index": matched, "event": bad, "first_observation": earlier,
+			"why": "the same (program, selectors, input) produced two different observations (stdout / JSON output / outcome)"})
 	}
 	c.Count("traces_validated_against_impl", int64(nproc+len(binRuns)))
 	c.Count("run_events", int64(len(events)))
